@@ -284,8 +284,9 @@ def run_batch(pid: str, tier: str, base_seed: int, workers: int | None = None,
             # stop early on violations that are not known findings: enough to report
             if len([v for v in total["violations"] if v.get("tape") is not None]) >= 6:
                 stopped_early = True
-                for f in pending:
-                    f.cancel()
+                for f in list(pending):
+                    if f.cancel():
+                        pending.pop(f)
                 it = iter(())
             submit_more()
     except BrokenProcessPool as e:
